@@ -1,4 +1,4 @@
 // C17: threaded domain assembly - synthetic instrumented job (exactly-once, overlap, structure, checksum oracles)
 #include "common/c17_sched_core.hpp"
 void c17_register_sched(std::vector<vf::Target>& tg, const std::string& prefix) { c17::add_sched_targets(tg, prefix); }
-namespace c17 { std::atomic<int>& tsan_reports() { static std::atomic<int> n{0}; return n; } std::string& tsan_first() { static std::string s; return s; } }
+namespace c17 { std::atomic<int>& tsan_reports() { static std::atomic<int> n{0}; return n; } std::string& tsan_first() { static std::string s; return s; } int& verdict_fd() { static int fd = -1; return fd; } }
